@@ -143,6 +143,11 @@ fn main() {
     if a.out.is_empty() {
         println!("{}", serde_json::to_string_pretty(&rep.to_json()).unwrap());
     } else {
+        let soaks = exec::SOAKS.load(std::sync::atomic::Ordering::Relaxed);
+        if soaks > 0 {
+            rep.add("soaked_interpreter_cases", soaks);
+            rep.add("soak_extra_executions_on_one_interpreter_vm", exec::SOAK_EXECS.load(std::sync::atomic::Ordering::Relaxed));
+        }
         let nested = hlp::NESTED_RUNS.load(std::sync::atomic::Ordering::Relaxed);
         if nested > 0 {
             rep.add("nested_interpreter_runs_inside_helper6_this_process", nested);
